@@ -331,17 +331,30 @@ def holds_all(state, atoms) -> bool:
 class Facts:
     """Runs the must-facts analysis on a CFG."""
 
-    def __init__(self, cfg: CFG, writes_of=None):
+    def __init__(self, cfg: CFG, writes_of=None, start: Node = None):
         """writes_of(call_node) -> set of self-attribute names the (non
         inlined) callee may assign on the *same* receiver, or None if unknown
         (then every self.* atom is killed)."""
         self.cfg = cfg
         self.writes_of = writes_of
         self.IN = dataflow.forward(cfg, frozenset(), self._transfer,
-                                   lambda a, b: a & b)
+                                   lambda a, b: a & b, start=start)
 
     def at(self, node: Node) -> Optional[FrozenSet[Atom]]:
         return self.IN.get(node.id)
+
+    def infeasible(self, node: Node, label) -> bool:
+        """A test edge contradicted by the facts that hold on every path
+        reaching the test (within this analysis' start region)."""
+        if node.kind != 'test' or label not in ('T', 'F'):
+            return False
+        st = self.IN.get(node.id)
+        if st is None:
+            return True
+        for p, k in atoms_of_test(node.ast, label == 'T', node.frame):
+            if holds(st, (not p, k)):
+                return True
+        return False
 
     def after(self, node: Node, label='next'):
         st = self.IN.get(node.id)
